@@ -49,6 +49,22 @@ TRANSFER = {
 }
 
 
+def strip_targs(name):
+    """qualified name without template argument lists: std::vector<Level>::emplace_back<int&> -> std::vector::emplace_back"""
+    i = name.find("operator")
+    head, tail = (name, "") if i < 0 else (name[:i], name[i:])
+    out = []
+    depth = 0
+    for ch in head:
+        if ch == "<":
+            depth += 1
+        elif ch == ">":
+            depth -= 1
+        elif depth == 0:
+            out.append(ch)
+    return "".join(out) + tail
+
+
 def check_signatures(prog):
     """cross-check the frozen in/out table against const-ness of the declarations in the IR"""
     problems = []
@@ -169,6 +185,8 @@ class DrvDomain(Domain):
         self.clob_n = 0
         self.throws = None
         self.in_solve = False
+        self.levels_built = None
+        self.level_ops = None  # level -> set of initialised operators (None: not tracked)
 
     # ------------------------------------------------------------ state construction
     def make_state(self, bufs=None, fields=None):
@@ -208,6 +226,15 @@ class DrvDomain(Domain):
         put("max_omp_threads_", Opaque("threads"))
         put("thread_reduction_factor_", Opaque("factor"))
         put("DirBC_Interior_", Opaque("DirBC"))
+        put("stencil_distribution_method_", m.get("stencil", 1))
+        put("cache_density_profile_coefficients_", bool(m.get("cache_coeff", True)))
+        put("cache_domain_geometry_", bool(m.get("cache_geom", True)))
+        for nm in ("domain_geometry_", "density_profile_coefficients_", "boundary_conditions_", "source_term_"):
+            put(nm, Ptr(True, nm))
+        for nm in ("R0_", "Rmax_", "nr_exp_", "ntheta_exp_", "anisotropic_factor_", "divideBy2_", "max_levels_"):
+            put(nm, Opaque(nm))
+        put("load_grid_file_", False)
+        put("write_grid_file_", False)
         ext = m.get("extrapolation", 0)
         put("full_grid_smoothing_", m.get("full_grid_smoothing", ext in (0, 2, 3)))
         put("number_of_iterations_", Undef("number_of_iterations_"))
@@ -252,6 +279,14 @@ class DrvDomain(Domain):
             return Fraction(txt.rstrip("fFlL"))
         except Exception:
             return Fraction(float(e["v"]))
+
+    def global_var(self, e, fr):
+        qn = e.get("qn", "")
+        if qn == "std::nullopt":
+            return None
+        if qn in ("std::cout", "std::cerr", "std::clog"):
+            return Opaque("stream")
+        raise AnalysisBroken("global %s not modelled at %s" % (qn, ir.locstr(e)))
 
     def default_value(self, t, v, fr):
         t = t.strip()
@@ -374,7 +409,8 @@ class DrvDomain(Domain):
         callee = e.get("callee") or e.get("ctor") or ""
         site = ir.locstr(e)
         args = e["args"]
-        base = callee.split("<")[0]
+        base = strip_targs(callee)
+        mname = base.rsplit("::", 1)[-1]
 
         # ---- streams / chrono / likwid: evaluate operands (reads), produce opaque
         if k == "OpCall" and e["op"] in ("<<",) and ("ostream" in callee or callee.startswith("std::operator<<")):
@@ -400,6 +436,8 @@ class DrvDomain(Domain):
                         return Pair(v.first.get(), v.second.get())
                 if len(args) == 2:
                     return Pair(it.rvalue(args[0], fr), it.rvalue(args[1], fr))
+            if t.startswith("Vector<double>") and len(args) == 1 and not e.get("copy") and not e.get("move"):
+                return Handle("vec", size=it.rvalue(args[0], fr))
             if t.startswith("std::optional<double>") and len(args) == 1:
                 return it.rvalue(args[0], fr)
             if t.startswith("std::filesystem::path") or t.startswith("std::basic_string") or t.startswith("std::string"):
@@ -408,6 +446,11 @@ class DrvDomain(Domain):
                 return Opaque("exception")
             if (e.get("copy") or e.get("move")) and len(args) == 1:
                 return self.copy_value(it.rvalue(args[0], fr), t)
+            if t.startswith("std::unique_ptr<") and len(args) <= 1:
+                if args:
+                    v = it.rvalue(args[0], fr)
+                    return v if isinstance(v, Ptr) else Ptr(v is not None, t)
+                return Ptr(False, t)
             raise AnalysisBroken("construction of %s not modelled at %s" % (t, site))
 
         this = None
@@ -427,7 +470,7 @@ class DrvDomain(Domain):
                     raise ThrowEx("levels_ out of range", site)
                 return LevelRef(i)
             if isinstance(b, Handle) and b.kind == "threads":
-                return Opaque("threads")
+                return Cell(Opaque("threads"), "threads_per_level_[i]")
             if isinstance(b, ListObj):
                 i = self.concrete_int(i, args[1], fr)
                 if not (0 <= i < len(b.items)):
@@ -442,7 +485,7 @@ class DrvDomain(Domain):
         if k == "OpCall" and e["op"] in ("==", "!=") and len(args) == 2:
             a, b = it.rvalue(args[0], fr), it.rvalue(args[1], fr)
             return self.abs_binop(e["op"], a, b, e, fr)
-        if k == "OpCall" and e["op"] == "=" and base == "Vector":
+        if k == "OpCall" and e["op"] == "=" and base.startswith("Vector::"):
             dst = it.rvalue(args[0], fr)
             src = it.rvalue(args[1], fr)
             d = self.buf(dst, site, "assignment target")
@@ -457,12 +500,12 @@ class DrvDomain(Domain):
                 self.write(c, self.copy_value(v, ""), e, fr)
                 return c
         if isinstance(this, Handle) and this.kind == "levels":
-            if base.endswith("::back"):
+            if mname == "back":
                 return LevelRef(self.L - 1)
-            if base.endswith("::size"):
+            if mname == "size":
                 return self.L
         if isinstance(this, LevelRef):
-            m = callee.split("::")[-1]
+            m = mname
             if m in WHICH:
                 return BufRef(this.l, m)
             if m == "level_depth":
@@ -473,16 +516,17 @@ class DrvDomain(Domain):
                 return Handle("cache", l=this.l)
             if callee in ("Level::computeResidual", "Level::smoothing", "Level::extrapolatedSmoothing", "Level::directSolveInPlace"):
                 return self.level_op(callee, this, [it.rvalue(a, fr) for a in args], site)
-            raise AnalysisBroken("Level method %s not modelled at %s" % (callee, site))
+            if not m.startswith("initialize"):
+                raise AnalysisBroken("Level method %s not modelled at %s" % (callee, site))
         if isinstance(this, Handle) and this.kind == "grid":
-            m = callee.split("::")[-1]
+            m = mname
             if m == "numberOfNodes":
                 return S("N", this.l)
             return Opaque("grid." + m)
         if isinstance(this, Handle) and this.kind == "cache":
             return Opaque("cache")
         if isinstance(this, OptVal):
-            m = callee.split("::")[-1]
+            m = mname
             if m == "has_value" or m == "operator bool":
                 return this.present
             if m == "value":
@@ -490,13 +534,13 @@ class DrvDomain(Domain):
                     self.event("bad-optional", site, "%s.value() on a disabled tolerance" % this.name)
                 return S("tol", this.name)
         if isinstance(this, Ptr):
-            m = callee.split("::")[-1]
+            m = mname
             if m == "operator bool":
                 return this.nonnull
             if m == "get":
                 return this
         if isinstance(this, ListObj):
-            m = callee.split("::")[-1]
+            m = mname
             if m == "push_back" or m == "emplace_back":
                 this.items.append(self.copy_value(it.rvalue(args[0], fr), ""))
                 self.field_writes.add(this.name)
@@ -518,6 +562,46 @@ class DrvDomain(Domain):
                 return None
         if isinstance(this, Pair):
             pass
+
+        # ---- setup(): level construction and operator initialisation
+        if base == "std::make_unique":
+            for a in args:
+                it.rvalue(a, fr)
+            return Ptr(True, "make_unique")
+        if callee in ("GMGPolar::createFinestGrid", "coarseningGrid"):
+            for a in args:
+                it.rvalue(a, fr)
+            return Opaque("grid")
+        if callee == "GMGPolar::chooseNumberOfLevels":
+            return self.L
+        if isinstance(this, Handle) and this.kind == "levels":
+            m = mname
+            if m == "clear":
+                self.bufs = {}
+                self.levels_built = 0
+                self.level_ops = {}
+                self.field_writes.add("levels_")
+                return None
+            if m == "reserve":
+                it.rvalue(args[0], fr)
+                return None
+            if m == "emplace_back":
+                vals = [it.rvalue(a, fr) for a in args]
+                return self.build_level(vals, site)
+        if isinstance(this, Handle) and this.kind == "threads":
+            for a in args:
+                it.rvalue(a, fr)
+            self.field_writes.add("threads_per_level_")
+            return None
+        if isinstance(this, LevelRef) and mname.startswith("initialize"):
+            for a in args:
+                it.rvalue(a, fr)
+            if self.level_ops is None:
+                self.level_ops = {}
+            self.level_ops.setdefault(this.l, set()).add(mname[len("initialize"):])
+            return None
+        if isinstance(this, Ptr) and mname in ("nr", "ntheta", "numberOfNodes", "getAlphaJump"):
+            return Opaque(callee)
 
         # ---- transfers through interpolation_
         if callee in TRANSFER:
@@ -601,6 +685,40 @@ class DrvDomain(Domain):
             return r
         return NotImplemented
 
+    def build_level(self, vals, site):
+        """levels_.emplace_back(depth, grid, cache, extrapolation, FMG): interpret Level::Level's mem-initialisers"""
+        ctor = [f for f in self.prog.fns("Level::Level") if len(f["params"]) == 5]
+        if len(ctor) != 1:
+            raise AnalysisBroken("anchor vanished: Level::Level with 5 parameters")
+        ctor = ctor[0]
+        depth = vals[0]
+        if depth != self.levels_built:
+            self.event("level-order", site, "level %r constructed at position %r of levels_" % (depth, self.levels_built))
+        obj = Obj("Level")
+        self.interp.call_function(ctor, obj, vals, None)
+        fieldmap = {"rhs": "rhs_", "solution": "solution_", "residual": "residual_", "error_correction": "error_correction_"}
+        for w, fname in fieldmap.items():
+            acc = [f for f in self.prog.fns("Level::" + w) if not f.get("constm")]
+            ok = False
+            for f in acc:
+                b = f["body"]["s"]
+                if len(b) == 1 and b[0]["k"] == "Return" and b[0]["e"]["k"] == "Field" and b[0]["e"]["field"] == fname:
+                    ok = True
+            if not ok:
+                raise AnalysisBroken("accessor Level::%s() no longer returns member %s" % (w, fname))
+            v = obj.f.get(fname)
+            v = v.get() if v is not None else None
+            if not (isinstance(v, Handle) and v.kind == "vec"):
+                raise AnalysisBroken("Level::Level does not construct %s as a Vector (got %r)" % (fname, v))
+            self.bufs[(depth, w)] = {"alloc": v.size != 0, "val": LC.zero()}
+        self.levels_built += 1
+        self.field_writes.add("levels_")
+        return None
+
+    def need_op(self, l, op, site):
+        if self.level_ops is not None and op not in self.level_ops.get(l, ()):
+            self.event("uninitialised-operator", site, "%s is used on level %d but setup() did not initialise it there in this mode" % (op, l))
+
     def enter(self, fn, this, fr, site):
         qn = fn["qn"]
         if "Multigrid_" in qn or "multigrid_" in qn:
@@ -626,6 +744,7 @@ class DrvDomain(Domain):
             fb = self.buf(rhs, site, "rhs")
             xb = self.buf(x, site, "x")
             self.want_level(l, [res, rhs, x], site, callee)
+            self.need_op(l, "Residual", site)
             rb["val"] = fb["val"] - xb["val"].lin("A", l)
             self.oplog.append(("computeResidual", l, repr(res), repr(rhs), repr(x), site))
             return None
@@ -637,6 +756,7 @@ class DrvDomain(Domain):
             tb = self.buf(tmp, site, "temp")
             self.want_level(l, [x, rhs, tmp], site, callee)
             sym = "S" if callee == "Level::smoothing" else "Sx"
+            self.need_op(l, "Smoothing" if sym == "S" else "ExtrapolatedSmoothing", site)
             if sym == "Sx" and l != 0:
                 self.event("wrong-level", site, "extrapolated smoothing applied on level %d (only defined on the finest level)" % l)
             xb["val"] = tfn(sym, l, xb["val"], fb["val"])
@@ -648,7 +768,8 @@ class DrvDomain(Domain):
             (x,) = a
             xb = self.buf(x, site, "x")
             self.want_level(l, [x], site, callee)
-            if l != self.L - 1:
+            self.need_op(l, "DirectSolver", site)
+            if l != self.L - 1 and self.level_ops is None:
                 self.event("wrong-level", site, "direct solve on level %d but only the coarsest level %d has a direct solver" % (l, self.L - 1))
             xb["val"] = xb["val"].lin("Solve", l)
             self.oplog.append(("Solve", l, repr(x), site))
